@@ -580,6 +580,9 @@ def run_C06(ctx):
     keep = [m for m in (resc.get("mismatches") or []) if m["sig"].startswith("c18:independent")]
     ctx.absorb(dict(resc, mismatches=[dict(m, sig="c06:concurrent-build:" + m["sig"]) for m in keep], n_mismatch=len(keep), nontrivial=resc.get("cases", 0)),
                "V:conc-stress(concurrent builds)")
+    # rejected documents too: several builds of one rejected project running at once must all report what the lone build reports
+    resr = ctx.vh("c06-rejected-conc", "modelall:" + rmod.out, 8, timeout=3000)
+    ctx.absorb(resr, "V:c06-rejected-conc(rejected block-model documents, 8 builds at once)")
     # M+G: every history of builds over changing files and a process-wide pool of option values (MC_C06)
     r5 = ctx.tlc("MC_C06", cfg="MC_C06_quick.cfg" if ctx.quick else "MC_C06_thorough.cfg", timeout=1800)
     res5 = ctx.vh("c06-hist-replay", r5.out, timeout=3000)
